@@ -62,3 +62,45 @@ func (Codec) UnmarshalInterface(bz []byte, ptr interface{}) error {
 	}
 	return nil
 }
+
+// FullCodec is the model codec behind the full codec.Codec interface (which keepers built with
+// codec.CollValue demand). Only the binary methods are modelled; every other method is a nil
+// dereference, i.e. an explicit failure.
+type FullCodec struct {
+	codec.Codec // nil
+}
+
+// NewFullCodec returns the model inside the engine and a real ProtoCodec natively (register
+// gives the interface registrations the messages used by the harness need).
+func NewFullCodec(register func(codectypes.InterfaceRegistry)) codec.Codec {
+	if rt.Symbolic() {
+		return FullCodec{}
+	}
+	reg := codectypes.NewInterfaceRegistry()
+	if register != nil {
+		register(reg)
+	}
+	return codec.NewProtoCodec(reg)
+}
+
+func (FullCodec) Marshal(o proto.Message) ([]byte, error) { return rt.MarshalOpaque(o), nil }
+func (FullCodec) MustMarshal(o proto.Message) []byte      { return rt.MarshalOpaque(o) }
+func (FullCodec) Unmarshal(bz []byte, ptr proto.Message) error {
+	if !rt.UnmarshalOpaque(bz, ptr) {
+		return errUnmarshal
+	}
+	return nil
+}
+
+func (FullCodec) MustUnmarshal(bz []byte, ptr proto.Message) {
+	if !rt.UnmarshalOpaque(bz, ptr) {
+		panic(errUnmarshal)
+	}
+}
+
+func (FullCodec) UnpackAny(any *codectypes.Any, iface interface{}) error {
+	if !rt.UnpackAnyOpaque(any, iface) {
+		return errUnmarshal
+	}
+	return nil
+}
